@@ -319,7 +319,61 @@ func runC06(outDir string, seed int64, tier string) {
 			sum.Failures = append(sum.Failures, failure{ID: id, Class: "number:different-number-read-back", Input: desc, Observed: out.Answers[0]["M"].String(), Expected: out.Answers[0]["N"].String()})
 		}
 	}
-	sum.Rule = "terms of depth 1-3 built without the reader (atom_codes, =.., Go floats): atoms of every lexical class (alphanumeric, solo, graphic, quoted with escapes and control characters, empty, non-ASCII incl. symbols and a 4-byte character, operator names), integers incl. both 64-bit extremes and random 64-bit values, finite floats incl. zeros, subnormals, the largest float and random bit patterns, variables with sharing, compounds whose functor is any of those atoms, operator terms of arity 1 and 2 over built-in and user operators, negative numbers as operands and under ^ and -, lists and partial lists as native cells and as '.'/2, curly terms, '{}'/2, '[]'/1, '.'/1; operator tables after 0-6 random op/3 calls (prefix+infix for one name, postfix, redefinitions, removals); double_quotes in codes/chars/atom; written by writeq, write_canonical, write_term quoted with and without ignore_ops; read back by read_term and compared structurally (floats bit for bit, variables up to renaming); number_codes/number_chars on the same numbers; distinct by table + term + writer"
+	// quoted atoms: random texts over characters of every kind; what writeq writes is compared with the model's quote
+	pool := []rune{'a', 'Z', '0', '_', ' ', '\'', '\\', '"', '`', '\n', '\t', '\a', 0, 0x7f, 0x1b, '+', '.', '(', ']', '|', '%', 'é', 'É', 'ñ', '日', '本', 'α', 'Ω', '∀', '→', '😀', 0x2a01, 0x300, 0xa0, 0x2028, 0x10ffff, 0xe000}
+	var qcases []string
+	nq := n / 4
+	for i := 0; i < nq; i++ {
+		rr := r.split()
+		var rs []rune
+		for j, k := 0, rr.intn(7); j < k; j++ {
+			rs = append(rs, pool[rr.intn(len(pool))])
+		}
+		var cs []string
+		for _, c := range rs {
+			cs = append(cs, fmt.Sprint(int(c)))
+		}
+		var sink bytes.Buffer
+		p := prolog.New(nil, &sink)
+		out := runQuery(p, 1, []string{"A"}, fmt.Sprintf("atom_codes(A, [%s]), writeq(A) .", strings.Join(cs, ",")))
+		id := 2000000 + i
+		desc := map[string]interface{}{"text": fmt.Sprintf("atom_codes(A, [%s]), writeq(A).", strings.Join(cs, ",")), "atom": string(rs)}
+		sum.Cases[fmt.Sprint(id)] = desc
+		sum.Evaluations++
+		if len(out.Answers) != 1 {
+			sum.Failures = append(sum.Failures, failure{ID: id, Class: "write:construction-or-write-failed", Input: desc, Observed: fmt.Sprint(out.Err, out.GoErr), Expected: "the atom is written"})
+			continue
+		}
+		text := sink.String()
+		desc["written"] = text
+		// read it back on the implementation as well
+		p.SetUserInput(engine.NewInputTextStream(strings.NewReader(text + " .")))
+		out2 := runQuery(p, 1, []string{"R"}, "read_term(user_input, R, []) .")
+		if len(out2.Answers) != 1 || out2.Answers[0]["R"].K != 'a' || out2.Answers[0]["R"].S != string(rs) {
+			sum.Failures = append(sum.Failures, failure{ID: id, Class: "read:quoted-atom-not-read-back", Input: desc, Observed: fmt.Sprint(out2.Answers, out2.Err, out2.GoErr), Expected: string(rs)})
+		}
+		if strings.HasPrefix(text, "'") {
+			sum.count("atom:quoted")
+			var ts []string
+			for _, c := range text {
+				ts = append(ts, fmt.Sprint(int(c)))
+			}
+			qcases = append(qcases, fmt.Sprintf("(%d, %s, %s)", id, coqList(cs), coqList(ts)))
+		} else {
+			sum.count("atom:bare")
+		}
+	}
+	qheader := "From Coq Require Import ZArith List.\nFrom PV Require Import Model.Quote Model.QuoteCheck.\nImport ListNotations.\nOpen Scope Z_scope.\n"
+	for i, nf := 0, 0; i < len(qcases); i, nf = i+1500, nf+1 {
+		j := i + 1500
+		if j > len(qcases) {
+			j = len(qcases)
+		}
+		name := fmt.Sprintf("cases_quote_%d.v", nf)
+		writeCases(filepath.Join(outDir, name), qheader, "qcase", "check_quote", qcases[i:j])
+		sum.CaseFiles = append(sum.CaseFiles, name)
+	}
+	sum.Rule = "terms of depth 1-3 built without the reader (atom_codes, =.., Go floats): atoms of every lexical class (alphanumeric, solo, graphic, quoted with escapes and control characters, empty, non-ASCII incl. symbols and a 4-byte character, operator names), integers incl. both 64-bit extremes and random 64-bit values, finite floats incl. zeros, subnormals, the largest float and random bit patterns, variables with sharing, compounds whose functor is any of those atoms, operator terms of arity 1 and 2 over built-in and user operators, negative numbers as operands and under ^ and -, lists and partial lists as native cells and as '.'/2, curly terms, '{}'/2, '[]'/1, '.'/1; operator tables after 0-6 random op/3 calls (prefix+infix for one name, postfix, redefinitions, removals); double_quotes in codes/chars/atom; written by writeq, write_canonical, write_term quoted with and without ignore_ops; read back by read_term and compared structurally (floats bit for bit, variables up to renaming); number_codes/number_chars on the same numbers; atoms of 0-6 characters over a pool of 37 (letters, digits, quote, backslash, double and back quote, control characters, layout, solo and graphic characters, accepted and unaccepted non-ASCII incl. combining, private-use and the last code point) written by writeq, compared with the model's quote and read back on both sides; distinct by table + term + writer"
 	header := "From Coq Require Import ZArith List String.\nFrom PV Require Import Model.Term Model.Canon.\nImport ListNotations.\nOpen Scope Z_scope.\nOpen Scope string_scope.\n"
 	writeCases(filepath.Join(outDir, "cases_canon.v"), header, "ccase", "check_canon", cases)
 	sum.CaseFiles = append(sum.CaseFiles, "cases_canon.v")
